@@ -376,13 +376,46 @@ func fbb.(*Session).sendOutbound(s, rw, outbound) (sent, err)
   loop 1 invariant bytes: 0 <= i && i <= len(sp) && checksum == entry(checksum) + BSum(sp, i)
   loop 2 invariant block: len(outbound) <= 5 && (forall k :: 0 <= k && k < len(outbound) ==> outbound[k] != nil) && sent != nil
   loop 3 invariant block: (forall k :: 0 <= k && k < len(outbound) ==> outbound[k] != nil) && sent != nil
+  ensures map: sent != nil
+
+# handleOutbound (C02 confirm-before-sent, C01 sent-report, C05 FF/FQ)
+#   gConfirmed: the peer's next-turn byte ('F' or ';') was seen after the block, which is
+#   the protocol's implicit acknowledgement that the block was completely received.
+#   SetSent(mid, false) - "successfully sent" - and the Sent statistics entry require it;
+#   rejected MIDs (already received by the peer) may be reported before.
+ghost var gConfirmed bool
+ghost var gSentMap map[string]bool
 
 func fbb.(*Session).handleOutbound(s, rw) (quitSent, err)
-  props C03
+  props C03 C02 C01 C05
   requires sess: SessOK(s) && rw != nil
+  call fmt.Fprintf requires ff-fq: $1 == "%s\r" && len($2) == 1 && ((s.remoteNoMsgs && unbox($2[0]) == "FQ") || (!s.remoteNoMsgs && unbox($2[0]) == "FF"))
+  call fbb.(*Session).sendOutbound set gSentMap := $r0
+  call bufio.(*Reader).Peek requires one-byte: $1 == 1
+  call bufio.(*Reader).Peek set gConfirmed := $r1 == nil && len($r0) >= 1 && ($r0[0] == 'F' || $r0[0] == ';')
+  call fbb.MBoxHandler.SetSent#0 requires rejected-only: $2 && same($1, mid) && $2 == rej
+  call fbb.MBoxHandler.SetSent#1 requires confirm-before-sent: ($2 || gConfirmed) && same($1, mid) && $2 == rej
+  at append requires sent-stats: gConfirmed && !rej && len($1) == 1 && same($1[0], mid)
+  at return requires quit-iff-fq: $r1 == nil ==> ($r0 <==> (gSentMap == nil && s.remoteNoMsgs))
+  loop 0 invariant handler: s.h != nil && !gConfirmed
+  loop 1 invariant handler: s.h != nil && gConfirmed
 
+# outbound: exactly the remote's announced forwarders are passed to the handler (C05 fw-list);
+# invalid messages are skipped; every proposal is non-nil
 func fbb.(*Session).outbound(s) (props)
-  props C03
+  props C03 C05 C01
   requires sess: SessOK(s)
+  allocbound len(msgs)
+  call fbb.MBoxHandler.GetOutbound requires fw-list: same($1, s.remoteFW)
+  call fbb.sortProposals requires all: len($0) == len(props)
   ensures elems: forall k :: 0 <= k && k < len(props) ==> props[k] != nil
+  ensures no-handler: s.h == nil ==> len(props) == 0
+  loop 0 invariant elems: (forall k :: 0 <= k && k < len(props) ==> props[k] != nil) && (forall k :: 0 <= k && k < len(msgs) ==> msgs[k] != nil)
+
+# sort is a permutation of the slice (sort.Sort / sort.Stable contract)
+func fbb.sortProposals(props) ()
+  props C05
+  trusted
+  modifies props
+  ensures permutation-keeps-nonnil: (forall k :: 0 <= k && k < len(props) ==> old(props[k]) != nil) ==> (forall k :: 0 <= k && k < len(props) ==> props[k] != nil)
 @*/
